@@ -989,13 +989,19 @@ def r5_ensembles(chk):
             out.extend(conjuncts(v_) if v_ is not None else [c_])
         return [norm(x) for x in out]
 
-    allocs = [s_ for s_ in walk_no_nested(init.node) if isinstance(s_, ast.Assign) and norm(s_.targets[0]) == "self._coords" and isinstance(s_.value, ast.Call)
-              and (call_name(s_.value) or "").endswith("full") and s_.value.args and isinstance(s_.value.args[0], ast.Tuple)]
+    # (the allocation may come out of an expanded helper: `self._coords = coords__i1` with `coords__i1 = np.full((n, m, 3), nan)` - spelled out)
+    alloc_val = {}
+    for s_ in walk_no_nested(init.node):
+        if isinstance(s_, ast.Assign) and norm(s_.targets[0]) == "self._coords":
+            v_ = s_.value if isinstance(s_.value, ast.Call) else ienv.expand(s_.value, at=s_)
+            if isinstance(v_, ast.Call) and (call_name(v_) or "").endswith("full") and v_.args and isinstance(v_.args[0], ast.Tuple):
+                alloc_val[id(s_)] = (s_, v_)
+    allocs = [sv[0] for sv in alloc_val.values()]
     rows = []
     # (a) allocated inside the list branch with len(list) rows
     for s_ in allocs:
         if f"isinstance({src_p}, list)" in conds_at(s_):
-            rows.append(norm(ienv.expand(s_.value.args[0].elts[0], at=s_)))
+            rows.append(norm(ienv.expand(alloc_val[id(s_)][1].args[0].elts[0], at=s_)))
     if not rows:
         # (b) the row count is named in the list branch (`n = len(list)`) and the allocation that follows uses that name
         cfg_i = CFG(init.node)
@@ -1006,7 +1012,7 @@ def r5_ensembles(chk):
                 redefs = {n_.id for n_ in cfg_i.nodes if n_.kind == "stmt" and n_.ast is not d_ and isinstance(n_.ast, (ast.Assign, ast.AugAssign)) and nm_ in stored_paths(n_.ast)}
                 for s_ in allocs:
                     goal = {n_.id for n_ in cfg_i.nodes if n_.kind == "stmt" and n_.ast is s_}
-                    if start and goal and cfg_i.path(cfg_i.succs(start[0]), goal, avoid=redefs) is not None and norm(s_.value.args[0].elts[0]) == nm_:
+                    if start and goal and cfg_i.path(cfg_i.succs(start[0]), goal, avoid=redefs) is not None and norm(alloc_val[id(s_)][1].args[0].elts[0]) == nm_:
                         rows.append(f"len({src_p})")
                         break
     lc_ok = {}
